@@ -73,7 +73,7 @@ type ContractFile struct {
 }
 
 var clauseWords = map[string]bool{
-	"func": true, "iface": true, "ext": true, "fieldfunc": true, "lemma": true,
+	"func": true, "iface": true, "ext": true, "fieldfunc": true, "lemma": true, "struct": true, "tag": true,
 	"requires": true, "ensures": true, "panics": true, "may_panic": true, "modifies": true, "assigns": true,
 	"loop": true, "ghost": true, "at": true, "trusted": true, "inline": true, "pure": true, "props": true,
 	"spec": true, "axiom": true, "event": true, "env": true, "assume": true, "decreases": true, "global": true,
@@ -151,7 +151,7 @@ func ParseContractText(path, pkgPath, src string) (*ContractFile, error) {
 			return fmt.Errorf("%s:%d: %s", path, rl.line, fmt.Sprintf(format, a...))
 		}
 		switch word {
-		case "func", "iface", "ext", "fieldfunc", "lemma":
+		case "func", "iface", "ext", "fieldfunc", "lemma", "struct":
 			cur = &Block{Kind: word, Key: normKey(rest), File: path, Line: rl.line, Flags: map[string]bool{}, PkgPath: pkgPath}
 			cur.Props = append(cur.Props, fileProps...)
 			cf.Blocks = append(cf.Blocks, cur)
@@ -227,6 +227,17 @@ func ParseContractText(path, pkgPath, src string) (*ContractFile, error) {
 		case "trusted", "inline", "pure", "nopanic", "fresh", "nilsafe":
 			cur.Flags[word] = true
 			continue
+		case "tag":
+			// tag Field key item: the struct tag `key:"..."` of Field lists item (comma separated); item "=v" means the whole value is v
+			f := strings.Fields(rest)
+			if len(f) != 3 {
+				return nil, errf("tag needs 'Field key item'")
+			}
+			cl.Kind = "tag"
+			cl.Text = rest
+			cl.GhostName = f[0]
+			cl.AtKind = f[1]
+			cl.AtName = f[2]
 		case "var":
 			// var a, b real
 			f := strings.Fields(strings.ReplaceAll(rest, ",", " "))
